@@ -64,7 +64,11 @@ func newWorld(namespaces []string, blockingMiddleware bool) *world {
 			w.v.Do(func() { w.socks = append(w.socks, l); l.connHandler++ })
 			s.OnDisconnecting(func(r sio.Reason) { w.v.Do(func() { l.log = append(l.log, "disconnecting:"+string(r)) }) })
 			s.OnDisconnect(func(r sio.Reason) { w.v.Do(func() { l.log = append(l.log, "disconnect:"+string(r)) }) })
-			s.OnEvent("e", func() { w.v.Do(func() { l.log = append(l.log, "event") }) })
+			// the handler joins a room, as handlers commonly do on a client's request: a Join that lands
+			// after the socket has left (its handler was dispatched before the end) must leave nothing behind
+			s.OnEvent("e", func() { w.v.Do(func() { l.log = append(l.log, "event") }); s.Join("lobby") })
+			// a slow handler: it was dispatched while the socket was connected and joins a room a second later
+			s.OnEvent("slow-join", func() { vsched.Sleep(time.Second); s.Join("late-lobby") })
 			w.v.Do(func() { l.handlersReady = true })
 		})
 	}
@@ -181,6 +185,7 @@ func scenario(phase string, cs []cause, bound int) *vx.Scenario {
 			})
 		case phBurstIn:
 			vsched.GoQuiet("burst-in", func() {
+				f.In(`2["slow-join"]`)
 				for i := 0; i < 3; i++ {
 					f.In(`2["e"]`)
 				}
@@ -376,7 +381,7 @@ func main() {
 			if tier == "thorough" {
 				return 15 * time.Minute
 			}
-			return 100 * time.Second
+			return 180 * time.Second
 		},
 		Extra: eioLevel,
 		Assumptions: []string{
